@@ -71,6 +71,25 @@ CHECKS = {
 def main():
     fixed = []
     checks = []
+    # later additions to the workloads / oracles (rounds 8-10 of seeded changes), appended to the descriptions above
+    ADD = {
+      "C01": " Withdrawals also name module accounts and the bridge's own escrow as recipients, and a withdrawal leaves the escrow once however often it is submitted.",
+      "C02": " Bridges are also created between payments and re-submissions.",
+      "C03": " Every rejected claim that does not verify is also inspected in the handler's own state branch before that branch is discarded: it may not have written a single store entry.",
+      "C06": " Schedules include deposits whose multi-message hook spends part of the deposit and then fails, and executors signing under the upper-case spelling of their address.",
+      "C09": " Unusable recipients include the blocked fee collector holding bridged tokens of its own; a third of the chains never registers its bridge info.",
+      "C11": " The alphabet includes the predecessor's block number together with its very root at the next index.",
+      "C12": " Every update is also probed in a form that changes nothing (names the current holder / repeats the stored value).",
+      "C14": " Malformed registrations also reuse the proposal id of the pending plan.",
+      "C16": " One L1 state holds 130 token pairs, 130 batch-info generations and 240 outputs, one L2 state 130 bridged denoms (more than a query page).",
+      "C17": " Deposits of empty and unit amounts of ordinary, 128-character, look-alike ('l2/<64 hex>') and fresh denoms must announce and register the documented derived denom.",
+      "C18": " While the concurrent replicas run, four more goroutines serve queries on chains of their own (about two million calls per quick run).",
+      "C19": " Lists of 31..90 channels and metadata whose winner depends on key order are included.",
+      "C20": " Contexts sit at heights 0, 1, 2, the current height and 2^40.",
+    }
+    for pid, extra in ADD.items():
+        if pid in CHECKS and not CHECKS[pid]["text"].endswith(extra):
+            CHECKS[pid]["text"] += extra
     for pid in ALL:
         c = CHECKS.get(pid)
         if not c: continue
